@@ -1,6 +1,6 @@
 """check configuration for C18 (loaded by lib/zvprops.py)"""
 
-PROP = {'gen_tables': ['SlogLevels'],
+PROP = {'gen_tables': ['SlogLevels', 'TransSlog'],
  'rule': 'ops: branching derivation programs (WithGroup/WithAttrs from any existing handler, records handled by parents and siblings after '
          'deriving) over attribute trees of typed values, named/inline/empty groups, the empty Attr, nil values and LogValuers (1-2 layers) '
          'resolving to each of those; exhaustive part: every derivation of <=2 (quick) / <=3 (thorough) steps over a 7-step alphabet x every '
